@@ -101,7 +101,38 @@ def case_build(case, col=None):
             raise Violation(f"negative_error_wrong_exception:{tag}:{exc_class(m)}", f"{m!r}")
 
 
+def case_copied_registry(case, col=None):
+    """measurements made through a deep-copied registry belong to the copy: they know what only the copy defines, combine with the copy's quantities
+    and never with the source's"""
+    import copy
+
+    if col is not None:
+        col.case(("cr", case["warm"]), True, sample=case, cls="copied_registry")
+    src = env.fresh("float")
+    if case["warm"]:
+        _ = src.Measurement(1.0, 0.1, "meter") + src.Quantity(1.0, "meter").plus_minus(0.1)
+    cp = copy.deepcopy(src)
+    cp.define("smoot = 1.7018 * meter")
+    for tag, fn in (("Measurement", lambda: cp.Measurement(2.0, 0.1, "smoot")), ("plus_minus", lambda: cp.Quantity(2.0, "smoot").plus_minus(0.1)), ("parse", lambda: cp.parse_expression("(2.0 +/- 0.1) smoot"))):
+        s_, m = attempt(fn)
+        if s_ == "err":
+            raise Violation(f"measurement_in_copied_registry_raised:{tag}:{exc_class(m)}", f"{tag} in a deep-copied registry with a unit defined after the copy: {m!r}")
+        if getattr(m, "_REGISTRY", None) is not cp:
+            raise Violation(f"measurement_of_copied_registry_belongs_to_source:{tag}", f"{tag}: owner is {'the source' if getattr(m, '_REGISTRY', None) is src else 'another registry'}")
+        s2, r = attempt(lambda: (m.to("meter"), m + cp.Quantity(1.0, "smoot"), m * cp.Quantity(2.0, "second")))
+        if s2 == "err":
+            raise Violation(f"measurement_in_copied_registry_raised:{tag}:use:{exc_class(r)}", f"{tag}: {r!r}")
+        mm = r[0].magnitude
+        if not close(mm.nominal_value, 2.0 * 1.7018) or not close(mm.std_dev, 0.1 * 1.7018):
+            raise Violation(f"measurement_in_copied_registry_wrong:{tag}", f"{tag}: (2.0 +/- 0.1) smoot -> {r[0]!r}")
+        s3, r3 = attempt(lambda: m + src.Quantity(1.0, "meter"))
+        if s3 == "ok" or not isinstance(r3, ValueError):
+            raise Violation(f"measurement_of_copy_combines_with_source:{tag}", f"{r3!r}")
+
+
 def run_build(task, tier, seed, col):
+    for warm in (False, True):
+        col.run_case(lambda c: case_copied_registry(c, col), {"warm": warm})
     cl = classes()
     keys = sorted(cl)
     strat = st.builds(lambda k, i, j, v, r: {"ua": cl[k][i % len(cl[k])], "ub": cl[k][j % len(cl[k])], "v": v, "rel": r}, st.sampled_from(keys), st.integers(0, 99), st.integers(0, 99), vals, rels)
@@ -600,6 +631,8 @@ def run_task(task, tier, seed, col):
 
 
 def replay(sub, case):
+    if sub == "build" and set(case) == {"warm"}:
+        return case_copied_registry(case)
     if sub == "notation" and set(case) == {"i"}:
         return case_nan_notation(case)
     if sub == "notation" and "left" in case:
